@@ -219,8 +219,17 @@ Section Prog.
   (* after the threshold has passed: started, path pushed, visit_Node yields EndTick *)
   Definition enter (n : nat) (k : stack) (s : S) : outcome :=
     Yield REnd (FNodeTick n :: FVisitEnd n :: k) (set_ns s n (set_started (st s n) true)).
+  (* _is_in_ended_block also walks the execution path: below a macro call that path holds the call node, whose own
+     enclosing blocks are not static ancestors of the macro body *)
+  Fixpoint path_ended (s : S) (k : stack) : bool :=
+    match k with
+    | [] => false
+    | FCallAfter n _ :: k' => in_ended_block s n || path_ended s k'
+    | _ :: k' => path_ended s k'
+    end.
+  Definition ended_here (s : S) (n : nat) (k : stack) : bool := in_ended_block s n || path_ended s k.
   Definition thr_loop (e : env) (n : nat) (k : stack) (s : S) : outcome :=
-    if awaiting e s n then (if in_ended_block s n then Go k s else Yield REnd (FThr n :: k) s) else enter n k s.
+    if awaiting e s n then (if ended_here s n k then Go k s else Yield REnd (FThr n :: k) s) else enter n k s.
 
   Definition try_activate (e : env) (s : S) (n : nat) : option S :=      (* None: the condition evaluation raised *)
     if cancelled (st s n) then Some s                                     (* a cancelled node is never activated *)
@@ -345,7 +354,7 @@ Section Prog.
         | Some c =>
             if children_complete x || completed x then Go k (set_ns s n (set_kids x (child_index x) true))
             else if Nat.ltb i (child_index x) then Go (FKids n (Datatypes.S i) :: k) s
-            else if in_ended_block s c then Go k (set_ns s n (set_kids x (child_index x) true))
+            else if ended_here s c k then Go k (set_ns s n (set_kids x (child_index x) true))
             else Go (FVisit c :: FKidsAfter n i :: k) s
         end
     | FKidsAfter n i =>
